@@ -14,7 +14,7 @@ REPO = os.environ.get('REPO', '/repo')
 BUILD_ROOT = os.environ.get('VERIF_BUILD', os.path.join(VERIF, '.build'))
 
 RENAMES = ['-Dmalloc=hxw_malloc', '-Dcalloc=hxw_calloc', '-Drealloc=hxw_realloc', '-Dfree=hxw_free',
-           '-Dstrdup=hxw_strdup', '-DinflateInit2_=hxw_inflateInit2_', '-Dgettimeofday=hxw_gettimeofday']
+           '-Dstrdup=hxw_strdup', '-DinflateInit2_=hxw_inflateInit2_', '-Dgettimeofday=hxw_gettimeofday', '-Dmkstemp=hxw_mkstemp', '-Dclose=hxw_close']
 
 VARIANTS = {
     # name: (compiler, flags for everything, extra flags for libhtp objects only, link flags)
